@@ -1283,6 +1283,16 @@ pub fn parse(lex_tokens: &Vec<LexerToken>) -> Result<ParseResult, CompilerError>
     // previous is def of last node
     check_composition(previous_second_def, SecondaryDefinition::None, check_for_list, &last_token)?;
 
+    // an assumed right is only valid if that node ended up being created
+    // when only annotations or white space followed the operator, it is the same as the operator being the last token
+    let node_count = nodes.len();
+    for node in nodes.iter_mut() {
+        match node.right {
+            Some(r) if r >= node_count => node.right = None,
+            _ => (),
+        }
+    }
+
     // also make sure all groups have been closed
     if !group_stack.is_empty() {
         unclosed_grouping_error(&last_token)?;
